@@ -247,6 +247,50 @@ class KeySpec:
         return None
 
 
+class OptSpec:
+    """An Option-valued expression recognised by `is_lookup(value)` (a table look-up such as `self.type_map().get(base)`) is
+    `Some` (some=True) or `None`."""
+
+    def __init__(self, is_lookup, some):
+        self._is_lookup, self.some = is_lookup, bool(some)
+        self.want = 'Some' if some else 'None'
+
+    def is_scrut(self, v):
+        v = vt.unvar(v)
+        while isinstance(v, dict) and v.get('k') == 'call' and v.get('recv') is not None and v.get('f') in ('cloned', 'copied', 'as_ref', 'as_deref', 'as_mut') and not v.get('args'):
+            v = vt.unvar(v['recv'])
+        return isinstance(v, dict) and bool(self._is_lookup(v))
+
+    def arm_hits(self, a):
+        vs = _short(a.get('variants', []))
+        pat = str(a.get('pat', '')).strip()
+        return bool(self.want in vs or '_' in vs or (not vs and pat.replace('_', 'a').isidentifier()))
+
+    def arm_frame(self, fr):
+        vs = _short(fr.get('variants', []))
+        if self.want in vs:
+            return True
+        if '_' in vs or not vs:
+            return None
+        return False
+
+    def names_it(self, a):
+        return self.want in _short(a.get('variants', []))
+
+    def test(self, c, specs):
+        kk = c.get('k')
+        if kk in ('iflet', 'matches') and self.is_scrut(c.get('scrut')) and not c.get('guard'):
+            vs = _short(c.get('variants', []))
+            if 'Some' in vs and 'None' not in vs:
+                return self.some
+            if 'None' in vs and 'Some' not in vs:
+                return not self.some
+            return None
+        if kk == 'call' and c.get('recv') is not None and c.get('f') in ('is_some', 'is_none') and not c.get('args') and self.is_scrut(c['recv']):
+            return self.some == (c['f'] == 'is_some')
+        return None
+
+
 def cond_truth(c, specs, depth=0):
     """True / False / None for a boolean condition (or `if let` test) under the specs; three-valued `!`, `&&`, `||`."""
     c = vt.unvar(c)
@@ -391,14 +435,42 @@ def evs(v, specs, depth=0):
                 subs = [x for x in subs if not (isinstance(x, dict) and x.get('k') == 'never')] or subs
                 combos = [c + [x] for c in combos for x in subs[:4]][:12]
             return [dict(v, args=c) for c in combos]
+        if v.get('recv') is not None and isinstance(v['recv'], dict) and depth < 40:
+            # an ordinary method call: its receiver is specialised (adaptor chains over a value that depends on the assumption)
+            rs = [x for x in evs(v['recv'], specs, depth + 1)[:6]]
+            rs = [x for x in rs if not (isinstance(x, dict) and x.get('k') == 'never')] or rs
+            args_alts = [[]]
+            for a in v.get('args', []):
+                subs = evs(a, specs, depth + 1)[:3] if isinstance(a, dict) and a.get('k') != 'closure' else [a]
+                subs = [x for x in subs if not (isinstance(x, dict) and x.get('k') == 'never')] or subs
+                args_alts = [c + [x] for c in args_alts for x in subs][:6]
+            return [dict(v, recv=r, args=c) if not (isinstance(r, dict) and r.get('k') == 'never') else r for r in rs for c in args_alts][:12]
         return outs
     if kk == 'field':
         for sp in specs:
             r = sp.project(v) if hasattr(sp, 'project') else None
             if r is not None:
                 return evs(r, specs, depth + 1)
-        return [v]
+        if not isinstance(v.get('base'), dict):
+            return [v]
+        outs = []
+        for b in evs(v['base'], specs, depth + 1)[:8]:
+            if isinstance(b, dict) and b.get('k') == 'never':
+                outs.append(b)
+                continue
+            t = vt.unvar(b)
+            if isinstance(t, dict) and t.get('k') == 'tuple' and str(v.get('name', '')).isdigit() and int(v['name']) < len(t.get('items', [])):
+                outs.append(t['items'][int(v['name'])])      # component of a tuple value that is known
+            else:
+                outs.append(dict(v, base=b))
+        live = [o for o in outs if not (isinstance(o, dict) and o.get('k') == 'never')]
+        return live or outs
     if kk == 'payload':
+        for sp in specs:
+            if isinstance(sp, OptSpec) and sp.is_scrut(v.get('of')):
+                if str(v.get('variant', '')).split('::')[-1] != sp.want:
+                    return [{'k': 'never'}]      # `Some` payload of a look-up assumed to miss
+                return [v]
         outs = []
         for o in evs(v.get('of'), specs, depth + 1):
             sh = _shape(o)
@@ -409,6 +481,16 @@ def evs(v, specs, depth=0):
             outs.append(pl if pl is not None else dict(v, of=o))
         live = [o for o in outs if not (isinstance(o, dict) and o.get('k') == 'never')]
         return live or outs
+    if kk in ('elem', 'ref', 'deref') and isinstance(v.get('of' if kk == 'elem' else 'v'), dict):
+        key = 'of' if kk == 'elem' else 'v'
+        return [dict(v, **{key: x}) if not (isinstance(x, dict) and x.get('k') == 'never') else x for x in evs(v[key], specs, depth + 1)[:8]]
+    if kk == 'tuple' and isinstance(v.get('items'), list):
+        combos = [[]]
+        for it in v['items']:
+            subs = evs(it, specs, depth + 1) if isinstance(it, dict) else [it]
+            subs = [x for x in subs if not (isinstance(x, dict) and x.get('k') == 'never')] or subs
+            combos = [c + [x] for c in combos for x in subs[:4]][:12]
+        return [dict(v, items=c) for c in combos]
     return [v]
 
 
@@ -452,6 +534,21 @@ def frame_truth(fr, param, variant):
     return frames_truth(fr, [EnumSpec(param, variant)])
 
 
+def frames_hold(G, frames, specs):
+    """False when some guard frame is false under the specs (a catch-all arm counts as false when a sibling arm of the same
+    match names the assumed value), else True."""
+    for fr in frames:
+        t = frames_truth(fr, specs)
+        if t is None and fr.get('k') == 'arm':
+            sp = next((x for x in specs if x.is_scrut(fr.get('scrut'))), None)
+            if sp is not None and fr.get('guard') is None:
+                named_elsewhere = any(sp.names_it(a) and a.get('guard') is None for m in G.get('matches', []) if vt.ckey(m.get('scrut')) == vt.ckey(fr.get('scrut')) and any(a2.get('line') == fr.get('line') for a2 in m.get('arms', [])) for a in m.get('arms', []))
+                t = not named_elsewhere
+        if t is False:
+            return False
+    return True
+
+
 def outcomes(G, specs):
     """Value trees the (inlined view of a) function can return under the specs: exits whose guard frames are false under the
     assumption are dropped, `never` results too."""
@@ -459,6 +556,15 @@ def outcomes(G, specs):
     if G.get('tail') is not None:
         exits.append(([], G['tail']))
     vals = []
+    cut = None      # line of an own early return that is taken for sure under the specs: nothing after it is reached
+    for r in G.get('returns', []):
+        if r.get('via') or r.get('v') is None:
+            continue
+        ts = [frames_truth(fr, specs) for fr in r.get('guard', []) if fr.get('k') in ('if', 'arm')]
+        if ts and all(t is True for t in ts) and not any(fr.get('k') in ('for', 'while', 'loop', 'closure') for fr in r.get('guard', [])):
+            cut = r.get('line', 0) if cut is None else min(cut, r.get('line', 0))
+    if cut is not None:
+        exits = [(r.get('guard', []), r.get('v')) for r in G.get('returns', []) if r.get('v') is not None and (r.get('via') or r.get('line', 0) <= cut)]
     for frames, val in exits:
         # arm frames with a catch-all pattern hold only if no sibling arm names the value: approximate by checking the
         # explicit arms of the same match (recorded in the function's `matches`)
